@@ -63,12 +63,16 @@ def _gen_file(rng, cfg, fmt=None):
     style = M.gen_style(rng, fmt)
     flavor = "wild" if rng.random() < cfg["wild_p"] else "valid"
     rows = M.gen_rows(rng, fmt, flavor=flavor)
+    if fmt == "ragged" and rng.random() < 0.3:
+        rows = M.gen_rows(rng, "ragged_int")
+        flavor = "valid"
+        style = dict(style, dtype="int")
     if cfg.get("huge") and not cfg.get("_huge_done"):
         big = _gen_huge(rng, fmt)
         if big is not None:
             rows, flavor = big, "valid"
             cfg["_huge_done"] = True
-    clean_text = M.render(rng, fmt, rows, style)
+    clean_text = M.render(rng, fmt, rows, style) if style.get("dtype") != "int" else _render_int(rng, rows, style)
     text, faults = clean_text, []
     if cfg["fault_p"] and rng.random() < cfg["fault_p"]:
         k = 1 if cfg["single_fault"] else rng.choice([1, 2, 3])
@@ -87,6 +91,14 @@ def _gen_file(rng, cfg, fmt=None):
         dev["eio_at"] = rng.randrange(0, nb + 3)
     return {"fmt": fmt, "style": style, "text": text, "clean": not faults, "rows": rows if not faults else None,
             "faults": faults, "dev": dev, "flavor": flavor}
+
+
+def _render_int(rng, rows, style):
+    """ragged rows with integer value tokens (time stamps keep any float spelling)"""
+    sep = {"ws": " ", "ws_explicit": "\t", "tab": "\t", "comma": ",", "semi": ";"}[style["delim"]]
+    lines = [sep.join([M.fmt_float(t, rng.choice(M.FLOAT_STYLES))] + ["%d" % int(v) for v in vals]) for t, vals in rows]
+    text = style["eol"].join(lines)
+    return text + (style["eol"] if lines and style["final_newline"] else "")
 
 
 def gen_plan(rng, tier, i):
@@ -157,6 +169,10 @@ def judge(fmt, verdict, outcome, warns, filename_str, text, eio_fired):
             return [("RAISED_ON_PARSABLE", "%s raised %s: %s on content the format defines" % (
                 loader, type(val).__name__, core.scrub(str(val))[:200]))], "raised"
         want = M.build_value(fmt, verdict["rows"])
+        if verdict.get("int_values"):
+            import numpy as np
+
+            want = (want[0], [np.array([int(v) for v in a.tolist()], dtype=int) for a in want[1]])
         out = []
         if core.digest(want) != core.digest(val):
             out.append(("WRONG_VALUE", "%s returned %s, file encodes %s" % (loader, core.brief(val), core.brief(want))))
@@ -192,6 +208,8 @@ def _load_once(mio, fs, spec, name, access, tmpdir, stats):
     fmt, style, text = spec["fmt"], spec["style"], spec["text"]
     fn = getattr(mio, M.LOADER[fmt])
     kw = M.loader_kwargs(style) if fmt != "patterns" else {}
+    if style.get("dtype") == "int":
+        kw["dtype"] = int
     simpath = "/simfs/" + name
     extra = {}
     seams.WARN.take()
@@ -274,6 +292,8 @@ def execute(plan, want_logs=False):
             spec = cur[name]
             fmt, text = spec["fmt"], spec["text"]
             verdict = M.refparse(fmt, text, spec["style"]["delim"], spec["style"]["comment"])
+            if spec["style"].get("dtype") == "int":
+                verdict = _int_verdict(verdict, text, spec["style"])
             # guard on the oracle itself: a fault-free file must parse back to the model annotation
             if spec.get("clean") and spec.get("rows") is not None and spec.get("flavor") == "valid":
                 _oracle_guard(fmt, spec, verdict)
@@ -314,6 +334,24 @@ def execute(plan, want_logs=False):
             shutil.rmtree(tmpdir, ignore_errors=True)
     return {"violations": violations, "stats": stats.dump(), "log_digest": log.digest(), "n_events": log.n,
             "log_events": log.events if want_logs else None}
+
+
+def _int_verdict(verdict, text, style):
+    """dtype=int: value columns must be integer literals.  Only a file whose value tokens are all plain
+    integers is judged (a fault that turns '60' into '6.0' or '6e1' meets numpy's str->int rules, which the
+    documentation does not spell out): everything else is UNSPEC."""
+    if verdict["kind"] != "VALUES":
+        return {"kind": "UNSPEC", "why": "dtype=int on a file that is not well-formed"}
+    lines = M.physical_lines(text) or []
+    for line in lines:
+        if style["comment"] is not None and line.startswith(style["comment"]):
+            continue
+        toks = M.split_tokens(line.strip(), style["delim"], -1)
+        for tk in toks[1:]:
+            t = tk.strip()
+            if not (t.isascii() and t.isdigit()):
+                return {"kind": "UNSPEC", "why": "non-integer token with dtype=int"}
+    return dict(verdict, int_values=True)
 
 
 def SimFSFor(plan, fired):
